@@ -85,7 +85,8 @@ def check(run):
     letters = [1, 2]
     maxlen = 3 if quick else 4
     words = all_words(letters, maxlen)
-    words += [[1, 4], [4, 1], [4], [2, 5, 1]]       # multi-byte / non-BMP letters
+    words += [[1, 4], [4, 1], [4], [2, 5, 1], [5], [1, 5], [5, 1], [1, 5, 2], [5, 5], [2, 5],
+              [1, 5, 3, 3], [1, 6, 2], [1, 6], [6, 2], [6]]   # multi-byte / non-BMP letters (two of them, in order)
     cases, metas = [], []
     qwords = words + [[1, 1, 2, 2, 1][:maxlen + 1], [2] * (maxlen + 1)]
     for nseg in (1, 3):
@@ -96,7 +97,7 @@ def check(run):
         with ix.searcher() as s:
             rd = s.reader()
             assert (len(rd.leaf_readers()) > 1) == (nseg > 1)
-            for qw in (qwords if not quick else rng.sample(qwords, 12)):
+            for qw in (qwords if not quick else rng.sample(qwords, 12) + [[1, 5], [2, 5, 2], [5, 1], [1, 2], [1, 6], [6, 2]]):
                 for k in (0, 1, 2) if quick else (0, 1, 2, 3):
                     for p in sorted(set([0, 1, len(qw), len(qw) + 1])):
                         if not quick and k == 3 and rng.random() < 0.6:
